@@ -981,14 +981,21 @@ func (g *groupQuery) position() int {
 // logicalQuery is an XPath logical expression.
 type logicalQuery struct {
 	Left, Right query
+	selected    bool
 
 	Do func(iterator, interface{}, interface{}) interface{}
 }
 
 func (l *logicalQuery) Select(t iterator) NodeNavigator {
-	// When a XPath expr is logical expression.
+	// When a XPath expr is logical expression: the context node is selected
+	// once if the comparison is true. (It used to be selected on every call,
+	// so anything that reads a query until it is exhausted never returned.)
+	if l.selected {
+		return nil
+	}
+	l.selected = true
 	node := t.Current().Copy()
-	val := l.Evaluate(t)
+	val := l.compare(t)
 	switch val.(type) {
 	case bool:
 		if val.(bool) == true {
@@ -998,10 +1005,15 @@ func (l *logicalQuery) Select(t iterator) NodeNavigator {
 	return nil
 }
 
-func (l *logicalQuery) Evaluate(t iterator) interface{} {
+func (l *logicalQuery) compare(t iterator) interface{} {
 	m := l.Left.Evaluate(t)
 	n := l.Right.Evaluate(t)
 	return l.Do(t, m, n)
+}
+
+func (l *logicalQuery) Evaluate(t iterator) interface{} {
+	l.selected = false
+	return l.compare(t)
 }
 
 func (l *logicalQuery) Clone() query {
